@@ -300,8 +300,11 @@ def write_evidence(prop_id, cfg, tier, seed, agg, wall, violations, notes, fuzz=
         "wall_s": round(wall, 2),
         "violations": violations,
     }
-    os.makedirs(os.path.join(VERIF, "evidence"), exist_ok=True)
-    path = os.path.join(VERIF, "evidence", prop_id + ".json")
+    # VERIF_EVIDENCE_DIR: runs against a deliberately broken /repo (selftest, seeded changes) write elsewhere,
+    # so that the committed evidence always comes from the unchanged tree
+    evdir = os.environ.get("VERIF_EVIDENCE_DIR") or os.path.join(VERIF, "evidence")
+    os.makedirs(evdir, exist_ok=True)
+    path = os.path.join(evdir, prop_id + ".json")
     tmp = path + ".tmp%d" % os.getpid()
     with open(tmp, "w") as f:
         json.dump(ev, f, indent=1, sort_keys=False, default=str)
@@ -600,7 +603,7 @@ def do_selftest(ids):
                 continue
             try:
                 t0 = time.time()
-                env = dict(os.environ, VERIF_REPLAYS_DIR=os.path.join(VERIF, ".work", "selftest-replays"))
+                env = dict(os.environ, VERIF_REPLAYS_DIR=os.path.join(VERIF, ".work", "selftest-replays"), VERIF_EVIDENCE_DIR=os.path.join(VERIF, ".work", "selftest-evidence"))
                 p = subprocess.run([os.path.join(VERIF, "check"), pid, "quick"], stdout=subprocess.PIPE, stderr=subprocess.STDOUT, env=env)
                 if os.environ.get("VERIF_SELFTEST_VERBOSE"):
                     log(p.stdout.decode("utf-8", "replace")[-3000:])
